@@ -125,7 +125,11 @@ def check_role(role: str, sl: T.Term, op: str, o: Outcome, ctx: Dict[str, Any]) 
         if v is None:
             return False, f"{role} is {T.show(sl)[:100]}, not LE32"
         ok = F.mentions(v, mine) and not F.mentions(v, other)
-        return ok, f"{role} is derived from {'the other clock argument' if F.mentions(v, other) else 'neither clock argument'}"
+        if not ok:
+            return False, f"{role} is derived from {'the other clock argument' if F.mentions(v, other) else 'neither clock argument'}"
+        from .c11 import clock_encoder_form
+        why = clock_encoder_form(v)
+        return why is None, f"{role}: {why}"
     if role == "ARG:ircmd":
         ok = len(atoms) == 2 and atoms[0] == ("L", "00000000") and atoms[1][0] == "hx" and atoms[1][2:] == (0, None)
         if ok:
